@@ -53,18 +53,19 @@ type tierCfg struct {
 	histories int // operation sequences on ONE question model against a reference model
 	splices   int // several values sealed one after the other in one process, then every cross-combination of two of them
 	mixed     int // the same programs used for a text question and for a picture question in one process
+	many      int // questions with more choices than there are letters
 }
 
 func cfg(tier string) tierCfg {
 	if tier == "thorough" {
-		return tierCfg{sealed: 240, allBytes: true, roundtrip: 6000, questions: 6000, entropy: 600, freshKeys: 6, files: 4000, histories: 6000, splices: 400, mixed: 1500}
+		return tierCfg{sealed: 240, allBytes: true, roundtrip: 6000, questions: 6000, entropy: 600, freshKeys: 6, files: 4000, histories: 6000, splices: 400, mixed: 1500, many: 400}
 	}
-	return tierCfg{sealed: 16, allBytes: false, roundtrip: 1900, questions: 260, entropy: 40, files: 160, histories: 240, splices: 24, mixed: 40}
+	return tierCfg{sealed: 16, allBytes: false, roundtrip: 1900, questions: 260, entropy: 40, files: 160, histories: 240, splices: 24, mixed: 40, many: 30}
 }
 
 func (d *D) Count(tier string) int {
 	c := cfg(tier)
-	return c.sealed + c.roundtrip + c.questions + c.entropy + c.files + c.histories + c.splices + c.mixed
+	return c.sealed + c.roundtrip + c.questions + c.entropy + c.files + c.histories + c.splices + c.mixed + c.many
 }
 
 func setPlain(sc *core.Scenario, p string) {
@@ -162,6 +163,13 @@ func (d *D) Base(idx int, ctx *core.Ctx) *core.Scenario {
 	sc := &core.Scenario{Property: "C20", Seed: ctx.Seed, Index: idx, Level: "sealfault", ReplayExact: true, Sealed: map[string]string{}}
 	k := keys[r.Intn(len(keys))]
 	switch {
+	case idx >= c.sealed+c.roundtrip+c.entropy+c.questions+c.files+c.histories+c.splices+c.mixed:
+		// more choices than letters: the choices past 'z' cannot be marked, so they must not match either
+		sc.Kind = "question-many"
+		j := idx - (c.sealed + c.roundtrip + c.entropy + c.questions + c.files + c.histories + c.splices + c.mixed)
+		sc.Sealed["choices"] = fmt.Sprint([]int{27, 28, 30, 26, 52, 53}[j%6])
+		sc.Sealed["pattern"] = fmt.Sprint((j / 6) % 8)
+		sc.Sealed["multi"] = []string{"0", "1"}[(j/48+j)%2]
 	case idx >= c.sealed+c.roundtrip+c.entropy+c.questions+c.files+c.histories+c.splices:
 		// programs that print AND draw, used by a text question and by a picture question of the same process
 		sc.Kind = "question-mixed"
@@ -809,6 +817,91 @@ func (d *D) mixedQuestion(answerLine string, multi bool, n, matchT, matchP, vari
 	return b.String()
 }
 
+// runMany: a question with 26 to 53 choices (inline code, nothing is run). Matching sets and
+// markings are taken from patterns around the 26th, 27th and 52nd choice; a marking can only name
+// the first 26 choices. Verify()==nil iff the marked choices are precisely the matching ones.
+func (d *D) runMany(sc *core.Scenario, ctx *core.Ctx) *core.Violation {
+	var n, pat int
+	fmt.Sscan(sc.Sealed["choices"], &n)   //nolint:errcheck
+	fmt.Sscan(sc.Sealed["pattern"], &pat) //nolint:errcheck
+	multi := sc.Sealed["multi"] == "1"
+	matchSets := [][]int{{0}, {0, 26}, {1, 27}, {26}, {2, 5}, {25}, {25, 51}, {0, 52}}
+	var matching []int
+	for _, i := range matchSets[pat%len(matchSets)] {
+		if i < n {
+			matching = append(matching, i)
+		}
+	}
+	markings := [][]int{{0}, {1}, {2, 5}, {25}, {0, 1}, {0, 25}}
+	for _, marked := range markings {
+		if !multi && len(marked) != 1 {
+			continue
+		}
+		var ls []string
+		for _, i := range marked {
+			ls = append(ls, string(rune('a'+i)))
+		}
+		ans := strings.Join(ls, ", ")
+		at := "single-choice"
+		if multi {
+			at = "multiple-choice"
+		}
+		var b strings.Builder
+		fmt.Fprintf(&b, "---\ntype: question\ndifficulty: easy\nanswer-type: %s\nanswer: %s\n---\n\n## Generated question\n\nWhat does this program output?\n\n```evy\nprint \"out\" 1+1\n```\n\nChoose:\n\n", at, ans)
+		for i := 0; i < n; i++ {
+			isMatch := false
+			for _, m := range matching {
+				if m == i {
+					isMatch = true
+				}
+			}
+			if isMatch {
+				b.WriteString("- `out 2`\n")
+			} else {
+				fmt.Fprintf(&b, "- `no %d`\n", i)
+			}
+		}
+		content := b.String()
+		verr, berr, p := d.verify(content, "")
+		if ctx != nil {
+			ctx.Inc("evaluations", 1)
+			ctx.Inc("verifications", 1)
+			ctx.Inc("verifications_of_questions_with_more_choices_than_letters", 1)
+			ctx.Distinct(prng.HashString(fmt.Sprint("many", n, matching, marked, multi)))
+		}
+		obs := map[string]any{"choices": n, "matching_choice_indices": matching, "marked_correct": ans, "multiple_choice": multi}
+		if p != "" {
+			obs["panic"] = p
+			return &core.Violation{Oracle: "no-panic", Signature: "panic:verify", Expected: "verification never crashes", Observed: obs, Match: map[string]string{"oracle": "panic"}}
+		}
+		if berr != nil {
+			if ctx != nil {
+				ctx.Inc("many_choice_questions_refused_while_loading", 1)
+			}
+			continue // refusing such a question altogether is a way of not accepting it
+		}
+		want := len(marked) == len(matching)
+		if want {
+			for i := range marked {
+				if marked[i] != matching[i] {
+					want = false
+				}
+			}
+		}
+		if (verr == nil) != want {
+			obs["verify_error"] = fmt.Sprint(verr)
+			sig := "accepted-wrong-marking"
+			if want {
+				sig = "rejected-right-marking"
+			}
+			return &core.Violation{Oracle: "verify-iff", Signature: sig + ":many-choices",
+				Expected: "verification accepts a question exactly when the marked choices are precisely the choices whose output equals the question's output",
+				Observed: obs, Match: map[string]string{"oracle": "verify-iff", "case": sig}}
+		}
+	}
+	return nil
+}
+
 // runMixed: verification is a function of the question file. The same program files
 // are used by a text question and by a picture question, one after the other in this
 // process, for every subset of marked answers; each verdict is compared with the
@@ -1356,6 +1449,8 @@ func (d *D) run(sc *core.Scenario, ctx *core.Ctx, tier string) *core.Violation {
 		return d.runSplice(sc, ctx)
 	case "question-mixed":
 		return d.runMixed(sc, ctx)
+	case "question-many":
+		return d.runMany(sc, ctx)
 	case "corruption":
 		return d.runCorruption(sc, ctx, cfg(tier).allBytes)
 	case "roundtrip":
@@ -1409,7 +1504,7 @@ func (d *D) Describe(ev *core.Evidence, st *core.Stats) {
 	faults["entropy-source-failed"] = c["entropy_fault_made_encrypt_fail"]
 	ev.Coverage["faults_injected"] = faults
 	ev.Coverage["probes"] = map[string]int64{"damaged_values_still_opening_to_original": c["damaged_values_still_opening_to_original"], "wrong_key_opened_to_original": c["wrong_key_opened_to_original"],
-		"verifications": c["verifications"], "verifications_of_corrupted_sealed_files": c["verifications_of_corrupted_sealed_files"], "roundtrips": c["roundtrips"], "frontmatter_roundtrips": c["frontmatter_roundtrips"], "file_roundtrips": c["file_roundtrips"], "model_histories": c["model_histories"], "model_history_operations": c["model_history_operations"], "pairs_of_values_sealed_in_one_process_and_spliced": c["splice_pairs"], "verifications_of_text_and_picture_questions_sharing_programs": c["verifications_of_text_and_picture_questions_sharing_programs"], "verifications_with_a_marked_letter_beyond_the_choices": c["verifications_with_a_marked_letter_beyond_the_choices"]}
+		"verifications": c["verifications"], "verifications_of_corrupted_sealed_files": c["verifications_of_corrupted_sealed_files"], "roundtrips": c["roundtrips"], "frontmatter_roundtrips": c["frontmatter_roundtrips"], "file_roundtrips": c["file_roundtrips"], "model_histories": c["model_histories"], "model_history_operations": c["model_history_operations"], "pairs_of_values_sealed_in_one_process_and_spliced": c["splice_pairs"], "verifications_of_text_and_picture_questions_sharing_programs": c["verifications_of_text_and_picture_questions_sharing_programs"], "verifications_with_a_marked_letter_beyond_the_choices": c["verifications_with_a_marked_letter_beyond_the_choices"], "verifications_of_questions_with_more_choices_than_letters": c["verifications_of_questions_with_more_choices_than_letters"]}
 	ev.Coverage["components"] = map[string][]string{"real": {"learn.Encrypt/Decrypt (RSA-OAEP + AES-GCM envelope)", "questionFrontmatter Seal/Unseal/getAnswer", "QuestionModel: markdown parsing, Verify, verifyChoiceMatch, correctAnswerIndices", "runEvy (the real evaluator produces every output)"},
 		"stub": {"crypto/rand.Reader (seeded stream, made to fail or run short)", "stored sealed value (damaged by the simulator)"}}
 	ev.Assumptions = []string{
